@@ -1619,7 +1619,7 @@ Open Scope string_scope.
 (* the checks of [verify] that depend on the decoded bodies (levels, values, checksums) *)
 Definition body_codes : list String.string :=
   ["uncompressed_page_size"; "page_crc"; "encodings_list"; "v2_num_rows"; "v2_num_nulls"; "v2_page_starts_mid_row"; "level_range";
-   "column_type"; "row_group_num_rows"; "page_location_first_row_index"].
+   "column_type"; "row_group_num_rows"; "page_location_first_row_index"; "encoding_stats"; "indexed_page_starts_mid_row"].
 
 Lemma in_check b code name : In code (check b name) -> b = false /\ code = name.
 Proof. unfold check. destruct b; cbn; intros H; [tauto|]. destruct H as [H|[]]. auto. Qed.
@@ -1642,7 +1642,7 @@ Lemma check_chunk_body ch code :
 Proof.
   intros H1 H2 H3 H4 H5 H. unfold check_chunk in H. cbv zeta in H.
   rewrite H1, H2, H3, H4, H5 in H. cbn [check app] in H.
-  split_in H; apply in_check in H; destruct H as [_ ->]; cbn [In body_codes]; auto 12.
+  split_in H; apply in_check in H; destruct H as [_ ->]; cbn [In body_codes]; auto 14.
 Qed.
 
 Lemma Forall2_map_eq {A B C} (R : A -> B -> Prop) (f : A -> C) (g : B -> C) l1 l2 :
@@ -1710,7 +1710,7 @@ Proof.
   assert (E3 : forallb (fun pl : tval * page => (nat_of_field 2 (fst pl) =? p_hlen (snd pl) + p_comp (snd pl))%nat) (combine locs (data_pages ch)) = true).
   { apply (Forall2_combine_forallb _ _ _ _ HT). intros loc p (_ & T2). cbn [fst snd]. now apply Nat.eqb_eq. }
   rewrite E1, E2, E3 in H. cbn [check app] in H.
-  apply in_check in H. destruct H as [_ ->]. cbn [In body_codes]. auto 12.
+  split_in H; apply in_check in H; destruct H as [_ ->]; cbn [In body_codes]; auto 14.
 Qed.
 
 (* the complaints [check_indexes] raises for one chunk *)
